@@ -14,8 +14,10 @@ WantLen(k, v) == CASE k \in {"LR", "LS"} -> Length(v) [] k \in {"PG", "MLS"} -> 
 PartKind(k) == CASE k = "PG" -> "LR" [] k = "MLS" -> "LS" [] k = "MPG" -> "PG" [] OTHER -> "none"
 MOne(o, k, v) ==
   CASE o.pan # "" -> "panic"
-    [] ~(o.a2.ok /\ o.a2.v = WantA2(k, v)) -> "area"
-    [] ~(o.len.ok /\ o.len.v = WantLen(k, v)) -> "length"
+    \* the catalogue's measures are integers; "to within rounding": within 2^-10 (a compensated or re-centred sum may differ
+    \* from the integer in the last bits)
+    [] ~(o.a2.qok /\ Abs(o.a2.q - 1024 * WantA2(k, v)) <= 1) -> "area"
+    [] ~(o.len.qok /\ Abs(o.len.q - 1024 * WantLen(k, v)) <= 1) -> "length"
     [] OTHER -> "ok"
 HasEmptyPart(k, v) == k = "MPG" /\ \E i \in DOMAIN v : v[i] = <<>>
 VMeasure(r) ==
@@ -41,16 +43,21 @@ AllRings(ps) == [i \in 1..SumSeq([p \in DOMAIN ps |-> Len(ps[p])]) |->
                    LET RECURSIVE Pick(_, _)
                        Pick(p, j) == IF j <= Len(ps[p]) THEN ps[p][j] ELSE Pick(p + 1, j - Len(ps[p]))
                    IN Pick(1, i)]
+ClosedL(l) == IF l[1] = l[Len(l)] THEN l ELSE Append(l, l[1])
 RingWhy(ro, ring) ==
-  CASE ro.pan # "" -> "panic"
-    [] ~(ro.sa2.ok /\ ro.sa2.v = -Area2(ring)) -> "SignedArea"
+  CASE ro.pan # "" -> (IF SimpleRing(ring) THEN "panic" ELSE "ok")       \* the statement speaks of simple rings
+    [] ~(ro.sa2.qok /\ Abs(ro.sa2.q + 1024 * Area2(ring)) <= 1) -> "SignedArea"
     [] Area2(ring) # 0 /\ SimpleRing(ring) /\ ro.ccw # (Area2(ring) > 0) -> "IsRingCounterClockwise"
     [] OTHER -> "ok"
 VCentroid(r) ==
   LET kind == r.case.kind
       ce == CASE kind = "poly" -> AreaCentroid(r.case.polys) [] kind = "lines" -> LineCentroid(r.case.lines)
               [] OTHER -> PointCentroid(r.case.pts)
-      bad == {k \in DOMAIN r.res : ~CenOK(r.res[k], ce, r.case.off)}
+      \* the two entry points that take LINEAR RINGS are fed the closed versions of the lines (an unclosed "ring" is outside the
+      \* property: whether its missing edge counts is left open)
+      ceR == IF kind = "lines" THEN LineCentroid([i \in DOMAIN r.case.lines |-> ClosedL(r.case.lines[i])]) ELSE ce
+      want(k) == IF kind = "lines" /\ k \in {3, 6} THEN ceR ELSE ce
+      bad == {k \in DOMAIN r.res : ~CenOK(r.res[k], want(k), r.case.off)}
       zero == kind = "poly" /\ SumSeq([p \in DOMAIN r.case.polys |-> PolyA2(r.case.polys[p])]) = 0 IN
   IF bad # {} THEN
     LET k == FirstOf(bad) IN
